@@ -1,7 +1,7 @@
 /-
   Csvq.Model.RelGen — hand-written support for lean/Csvq/Gen/RelFacts.lean (regenerated from the Go source by
   extract/relfacts on every run): the result of one round of a translated `for` loop, the loop driver, the kinds
-  of object `loadObject` tries, integer helpers.
+  of object `loadObject` tries, the origin of every field of a derived ReferenceScope, integer helpers.
 -/
 import Csvq.Model.Rel
 namespace Csvq.Rel
@@ -53,6 +53,39 @@ def tableKindBy (recName : Option String) (ctes temps : List String) (n : String
   | .temp :: rest => if nameIn temps n then some .temp else tableKindBy recName ctes temps n rest
   | .file :: _ => some .file
   | _ :: rest => tableKindBy recName ctes temps n rest
+
+/-! ### the scope constructors of reference_scope.go, field by field
+
+  extract/relfacts reads the composite literal `&ReferenceScope{…}` each of `createScope`, `CreateChild`,
+  `CreateNode` returns and says, for every field of the struct, where its value comes from. -/
+
+inductive FieldOrigin
+  | inherited            -- `F: rs.F`
+  | fresh                -- any other expression (a new slice built from the receiver's, the argument …)
+  | zero                 -- not mentioned, or `nil`
+  deriving Repr, DecidableEq
+
+structure ScopeCtor where
+  tx : FieldOrigin
+  blocks : FieldOrigin
+  nodes : FieldOrigin
+  cachedFilePath : FieldOrigin
+  now : FieldOrigin
+  records : FieldOrigin
+  recursiveTable : FieldOrigin
+  recursiveTmpView : FieldOrigin
+  recursiveCount : FieldOrigin
+  deriving Repr, DecidableEq
+
+/-- the scope a constructor with these origins derives (a field that is not inherited is lost; `fresh` nodes =
+    one more layer on top, in which `defined` is declared afterwards; `fresh` blocks keep the temporary tables
+    of the enclosing blocks visible) -/
+def deriveBy (o : ScopeCtor) (defined : List String) (s : NameScope) : NameScope :=
+  { recName := (match o.recursiveTable with | .inherited => s.recName | _ => none),
+    working := (match o.recursiveTmpView with | .inherited => s.working | _ => none),
+    ctes := (match o.nodes with | .inherited => s.ctes | .fresh => defined ++ s.ctes | .zero => []),
+    temps := (match o.blocks with | .zero => [] | _ => s.temps),
+    limitCount := (match o.recursiveCount with | .inherited => s.limitCount | _ => 0) }
 
 /-- math.Floor(float64(a) / float64(b)) for positive ints below 2^53 -/
 def floorDivI (a b : Int) : Int := a / b
